@@ -250,10 +250,11 @@ DESCRIPTION
 int32
 Hopen(const char *path, int acc_mode, int16 ndds)
 {
-    filerec_t *file_rec  = NULL; /* File record */
-    int        vtag      = 0;    /* write version tag? */
-    int32      fid       = FAIL; /* File ID */
-    int32      ret_value = SUCCEED;
+    filerec_t *file_rec   = NULL;  /* File record */
+    int        vtag       = 0;     /* write version tag? */
+    int        first_open = FALSE; /* whether this call set the file record up */
+    int32      fid        = FAIL;  /* File ID */
+    int32      ret_value  = SUCCEED;
 
     /* Clear errors and check args and all the boring stuff. */
     HEclear();
@@ -314,6 +315,8 @@ Hopen(const char *path, int acc_mode, int16 ndds)
     else {
         /* Flag to see if file is new and needs to be set up. */
         int new_file = FALSE;
+
+        first_open = TRUE;
 
         /* Open the file, fill in the blanks and all the good stuff. */
         if (acc_mode != DFACC_CREATE) { /* try to open existing file */
@@ -406,9 +409,15 @@ done:
         if (fid != FAIL)
             HAremove_atom(fid);
 
-        /* Chuck the file record we've built */
-        if (file_rec != NULL && file_rec->refcount == 0)
+        /* Chuck the file record we've built: also when the failure came after it had been
+           marked open (no id refers to it, so nothing else could ever release it) */
+        if (file_rec != NULL && (file_rec->refcount == 0 || first_open)) {
+            if (file_rec->refcount != 0) {
+                HTPend(file_rec); /* give the DD list back as Hclose does */
+                file_rec->refcount = 0;
+            }
             HIrelease_filerec_node(file_rec);
+        }
     }
 
     return ret_value;
